@@ -425,6 +425,10 @@ BAD_VALUES = {
   "fontStyle": ["", "Italic", "slanted"], "fontWeight": ["", "600", "bolder"], "visibility": ["", "invisible", "Hidden"],
   "wrapOption": ["", "nowrap", "no-wrap"], "textAlign": ["", "middle", "Center"], "displayAlign": ["", "middle", "top"],
   "showBackground": ["", "never", "Always"],
+  # values that are well-formed for the attribute's syntax but that the property does not admit (units the model rejects):
+  # malformed all the same - wherever they are written (inline, in a referenced or nested style, in an <initial>)
+  "extent": ["10rh 10rw", "10em 10em"], "origin": ["1em 1em", "1rh 1rw"], "position": ["1em 1em"], "linePadding": ["1px", "1em"],
+  "disparity": ["1em 1em"], "lineHeight": ["1rw 1rw"],
 }
 BAD_TC = ["", "PAR", "sequence", "par seq"]
 BAD_SPACE = ["", "Preserve", "collapse"]
@@ -446,9 +450,11 @@ BAD_TC.extend(HOSTILE[:3])
 BAD_SPACE.extend(HOSTILE[:3])
 for _k, _v in list(BAD_VALUES.items()):
   if _v is not BAD_COLOR:
-    _v.extend(HOSTILE[:4])
+    # ("10%" is a length: not junk for the properties that take one)
+    _v.extend([h for h in HOSTILE[:4] if not (h == "10%" and _k in ("extent", "origin", "position", "linePadding", "disparity", "lineHeight"))])
 for _k, _v in BAD_TT.items():
   _v.extend(HOSTILE[:3])
+MODEL_INVALID = ("extent", "origin", "position", "linePadding", "disparity", "lineHeight")
 UNKNOWN_ATTRS = [(X.qn(X.NS_TTS, "fooBar"), "x"), ("{urn:example:foreign}foo", "1"), ("foo", "1"),
                  (X.qn(X.NS_TTP, "unknownParameter"), "3"), (X.qn(X.NS_XML, "base"), "http://example.com/")]
 
@@ -476,13 +482,15 @@ def corruptions(doc, rng, count):
     elif r < 0.62:
       cands = [i for i, nd in enumerate(N, 1) if nd["kind"] in STYLED_KINDS]
       i = rng.choice(cands)
-      props = list(BAD_VALUES) if N[i - 1]["kind"] != "region" else ["backgroundColor", "displayAlign", "showBackground", "visibility", "color"]
+      props = list(BAD_VALUES) if N[i - 1]["kind"] != "region" else ["backgroundColor", "displayAlign", "showBackground", "visibility", "color", "extent", "origin", "position", "disparity"]
       p = rng.choice(props)
       base["N"][i - 1]["attrs"] = [a for a in base["N"][i - 1]["attrs"] if a[0] != p]
       out.append((base, (("node", i), X.style_qn(p), rng.choice(BAD_VALUES[p])), {"attr": "tts:" + p, "on": N[i - 1]["kind"]}, True))
     elif r < 0.68 and doc["S"]:
       k = rng.randint(1, len(doc["S"]))
-      p = rng.choice(list(BAD_VALUES))
+      # (a value that only the model rejects is noticed when the style is APPLIED: only on styles that some element references)
+      referenced = any(doc["S"][k - 1]["id"] in (nd.get("srefs") or []) for nd in N)
+      p = rng.choice([q for q in BAD_VALUES if referenced or q not in MODEL_INVALID])
       base["S"][k - 1]["attrs"] = [a for a in base["S"][k - 1]["attrs"] if a[0] != p]
       out.append((base, (("style", k), X.style_qn(p), rng.choice(BAD_VALUES[p])), {"attr": "tts:" + p, "on": "style"}, True))
     elif r < 0.72 and doc["I"]:
